@@ -160,7 +160,7 @@ func quiesceByStates() bool {
 	me := goid()
 	buf := make([]byte, 1<<20)
 	calm := 0
-	for i := 0; i < 200000; i++ {
+	for i := 0; i < 50000; i++ {
 		runtime.Gosched()
 		n := runtime.Stack(buf, true)
 		busy := false
